@@ -231,6 +231,10 @@ struct World {
       const long n = o.a > 0 ? o.a : 1;
       for (long i = 0; i < n; ++i) forward_once();
       tok(rk + "0");
+    } else if (o.name == "hold") {
+      // stay alive (running user code, holding the ID) for a number of scheduling quanta
+      for (long i = 0; i < o.a; ++i) vsched::pseudo_op("hold", "-", 0, 0);
+      tok(rk + "0");
     } else if (o.name == "cur") {
       tok(rk + std::to_string(mgr->GetCurrentEpoch()));
     } else if (o.name == "min") {
